@@ -108,7 +108,7 @@ theorem rtx_abs (env : Env) : ∀ (items : List DocItem) (blocks : List (SBlock 
     ∀ (bsegs : List SegX) (before : List (SItem α)) (cur : Section) (num : Nat) (m : List (Str × Str)),
     SegsItems env.cs bsegs before → bsegs.all SegX.simple = true →
       docSecs env before cur num blocks = absDocSecs bsegs cur num items ∧
-      SegsItems env.cs (bsegs ++ absDocSegs items) (before ++ docItems blocks) ∧
+      SegsItems env.cs (bsegs ++ absDocSegs items) (before ++ docStepItems blocks) ∧
       (bsegs ++ absDocSegs items).all SegX.simple = true ∧
       docMeta env m (docEntries blocks) = absDocMeta m items ∧
       (docEntries blocks).length = (items.filter DocItem.isMeta).length := by
@@ -116,7 +116,7 @@ theorem rtx_abs (env : Env) : ∀ (items : List DocItem) (blocks : List (SBlock 
   induction h with
   | nil =>
     intro _ bsegs before cur num m hb hbs
-    exact ⟨rfl, by simpa [absDocSegs, docItems] using hb, by simpa [absDocSegs] using hbs, rfl, rfl⟩
+    exact ⟨rfl, by simpa [absDocSegs, docStepItems] using hb, by simpa [absDocSegs] using hbs, rfl, rfl⟩
   | @cons d b items' blocks' hd _ ih =>
     intro hs bsegs before cur num m hb hbs
     have hs' : ∀ i ∈ items', i.simple = true := fun x hx => hs x (by simp [hx])
@@ -128,7 +128,7 @@ theorem rtx_abs (env : Env) : ∀ (items : List DocItem) (blocks : List (SBlock 
       obtain ⟨i1, i2, i3, i4, i5⟩ := ih hs' (bsegs ++ segs) (before ++ st)
         ⟨cur.name, cur.content ++ [.step ⟨itemsFrom before st, num⟩]⟩ (num + 1) m (rtr_all2_append hb hd)
         (by simp [List.all_append, hbs, hs1])
-      refine ⟨?_, by simpa [absDocSegs, docItems, List.append_assoc] using i2,
+      refine ⟨?_, by simpa [absDocSegs, docStepItems, List.append_assoc] using i2,
         by simpa [absDocSegs, List.append_assoc] using i3, by simpa [docEntries, absDocMeta] using i4,
         by simpa [docEntries, DocItem.isMeta] using i5⟩
       have hit := rtr_itemsFrom env segs st hd hs1 bsegs before hb hbs
@@ -137,13 +137,13 @@ theorem rtx_abs (env : Env) : ∀ (items : List DocItem) (blocks : List (SBlock 
     · -- section line
       rename_i name p t
       obtain ⟨i1, i2, i3, i4, i5⟩ := ih hs' bsegs before ⟨name.map leafText, []⟩ 1 m hb hbs
-      refine ⟨?_, by simpa [absDocSegs, docItems] using i2, by simpa [absDocSegs] using i3,
+      refine ⟨?_, by simpa [absDocSegs, docStepItems] using i2, by simpa [absDocSegs] using i3,
         by simpa [docEntries, absDocMeta] using i4, by simpa [docEntries, DocItem.isMeta] using i5⟩
       simp only [docSecs, absDocSecs, hd, i1]
     · -- metadata line
       rename_i k v p kt vt
       obtain ⟨i1, i2, i3, i4, i5⟩ := ih hs' bsegs before cur num (metaInsert m (leafText k) (leafText v)) hb hbs
-      refine ⟨by simpa [docSecs, absDocSecs] using i1, by simpa [absDocSegs, docItems] using i2,
+      refine ⟨by simpa [docSecs, absDocSecs] using i1, by simpa [absDocSegs, docStepItems] using i2,
         by simpa [absDocSegs] using i3, ?_, by simp [docEntries, List.filter_cons, DocItem.isMeta, i5]⟩
       simp only [docEntries, docMeta, List.foldl_cons, absDocMeta, hd.1, hd.2]
       exact i4
